@@ -56,6 +56,17 @@ pub fn bip322_verify_precompile(call: &PrecompileCall) -> InterpreterResult {
         return precompile_error(interpreter_result, "Failed to decode signature");
     };
 
+    // The verification library indexes the first witness item without checking that there is one,
+    // and unwraps the witness public key hash of a P2SH-P2WPKH key, which only a compressed key has
+    if signature.is_empty() {
+        return precompile_error(interpreter_result, "Failed to verify signature");
+    }
+    if address.address_type() == Some(bitcoin::AddressType::P2sh)
+        && signature.nth(1).is_some_and(|key| key.len() != 33)
+    {
+        return precompile_error(interpreter_result, "Failed to verify signature");
+    }
+
     let Ok(_) = verify_simple(&address, &message, signature) else {
         return precompile_error(interpreter_result, "Failed to verify signature");
     };
